@@ -178,7 +178,9 @@ def check_stripws(ctx):
     gd = Guards(p.node)
     pops = {}
     for n in own_nodes(p.node):
-        if isinstance(n, ast.Call) and isinstance(n.func, ast.Attribute) and n.func.attr == 'pop' and is_attr(n.func.value, 'tokens', p.params[1]) and n.args:
+        from ..astutil import alias_map, canon_text
+        if isinstance(n, ast.Call) and isinstance(n.func, ast.Attribute) and n.func.attr == 'pop' and n.args \
+                and canon_text(src(n.func.value), alias_map(p.node)) == f'{p.params[1]}.tokens':
             okp, why = RF.ws_proved(ctx, p, n, None, (src(n.func.value), src(n.args[0])), gd)
             in_loop = any(isinstance(l, ast.While) for l in gd.loops.get(id(gd.stmt_of.get(id(n))), ()))
             pops[src(n.args[0])] = okp and in_loop
